@@ -410,13 +410,28 @@ def random_schema(rng):
             fields.append({"name": fname, "py": py, "type": t, "default": None})
         tdefs(sd)[nm]["fields"] = fields
     # defaults: conforming internal values, added once all types are known
+    # Leaf-typed fields first (their defaults are final before any object that
+    # embeds them is built). A declared default must itself be a conforming
+    # resolver-side value (schema_wf): for fields whose type involves an input
+    # object, whose conforming values embed other fields' defaults, only the
+    # two values that embed nothing are used: None and the empty list.
     for nm in inames:
         for f in tdefs(sd)[nm]["fields"]:
+            if kind_of(sd, ty_name(f["type"])) == "input":
+                continue
             if rng.random() < 0.45:
                 j = gen_json(rng, sd, f["type"], 2, None)
                 if j is None and f["type"][1]:
                     continue
                 f["default"] = [internal_of(sd, f["type"], j)]
+    for nm in inames:
+        for f in tdefs(sd)[nm]["fields"]:
+            if kind_of(sd, ty_name(f["type"])) != "input" or rng.random() >= 0.45:
+                continue
+            t = f["type"]
+            choices = ([[]] if t[0] == "L" else []) + ([None] if not t[1] else [])
+            if choices:
+                f["default"] = [rng.choice(choices)]
     return sd
 
 
